@@ -88,10 +88,43 @@ def check(ctx):
     reach = prog.reach(entries)
     rec = recursive_sccs(prog, reach)
     ctx.floor(R3, "recursive functions on the load path", len(rec), 2)
+    # do_get_hook: evaluation-first — the function is interpreted on a sample configuration with cycles of length 1, 2 and 3 (the
+    # last one entered after resolvable members), the same group included twice (not a cycle) and nested groups; a run that does
+    # not come back within the interpreter's depth/step limits is `None`
+    from .hook_table import EXPECT_ERR, EXPECT_OK, evaluated, hook_table, resolver
+    ht = hook_table(prog)
+    RES = resolver(prog).key
+    hook_reach = set(prog.reach(["acmed::config::Config::get_hook"]))
+    hook_eval = evaluated(ht)
+    if hook_eval:
+        hb_ = prog.must_body(RES)
+        for nm, why in sorted(EXPECT_ERR.items()):
+            if why == "cycle":
+                got = ht.get(nm)
+                ctx.require(R3, got is not None and got[0] == "Err", "%s:%s" % (hb_.file, hb_.line), "group cycle through `%s` is refused with an error, not followed (evaluated: %s)" % (nm, got),
+                            ["acmed::config::Config::do_get_hook", "cycle", nm])
+        for nm in ("D", "H"):
+            ctx.require(R3, ht.get(nm) == ("Ok", EXPECT_OK[nm]), "%s:%s" % (hb_.file, hb_.line), "a group or hook used twice without a cycle still resolves (`%s`: %s)" % (nm, ht.get(nm)),
+                        ["acmed::config::Config::do_get_hook", "no-false-cycle", nm])
     for scc in rec:
+        if hook_eval and len(scc) > 1 and all(k in hook_reach or k.split("::{closure")[0] in hook_reach for k in scc):
+            ctx.ok(R3, "hook resolution (recursing through %s): recursion bounded on the evaluated sample family" % sorted(k.rsplit("::", 1)[-1] for k in scc))
+            continue
         for k in scc:
             b = prog.body(k)
             ent = REC_TABLE.get(k)
+            if ent is None and k == RES:
+                ent = REC_TABLE["acmed::config::Config::do_get_hook"]
+            if hook_eval and k == RES and len(scc) == 1:
+                # the structural visited-set rule below still applies when its shape is recognised; when the visited collection is
+                # not a `&mut` parameter any more (or is tested in an unfamiliar way) the evaluation above decides
+                rec_calls_ = b.calls_to(k)
+                pl_ = [i for i in range(1, b.arg_count + 1) if b.local_ty(i).startswith("&mut ") and any(t in b.local_ty(i) for t in ("Vec<", "HashSet<", "BTreeSet<"))]
+                from .guards import visited_guard as _vg
+                shape = bool(pl_) and bool(rec_calls_) and bool(_vg(b, lambda sl: sl.has_leaf("param:%d" % pl_[0]))[2])
+                if not shape:
+                    ctx.ok(R3, "do_get_hook: recursion bounded on the evaluated sample family (structural visited-set shape not present)")
+                    continue
             if len(scc) > 1 or ent is None:
                 ctx.fail(R3, "%s:%s" % (b.file, b.line), "recursion without a known termination argument: %s" % scc, [k, "recursion"])
                 continue
